@@ -18,7 +18,7 @@ LEVEL = "exploration"
 RULE = (
     "Rows of a seeded covering array (pairwise quick / 3-wise thorough, coverage verified and reported) over kernel x resampler x "
     "clustering x {vectorised, scalar, scalar+blobs} x boundary types {none, periodic, reflective, both} x metric {ESS, vv 0.3, vv 2} x "
-    "zero-likelihood region on/off x d in {1,2,3}; each row is one full Sampler.run on an instrumented target with a case seed. "
+    "zero-likelihood region on/off x d in {1,2,3,6}; each row is one full Sampler.run on an instrumented target with a case seed. "
     "Non-trivial = a run in which some mutation call had both accepted and rejected walkers. distinct = distinct (row, seed)."
 )
 ASSUMPTIONS = [
@@ -78,7 +78,7 @@ class Coherence(RowCheck):
     FACTORS = {
         "kernel": ["tpcn", "rwm"], "resample": ["mult", "syst"], "clustering": [False, True],
         "mode": ["vector", "scalar", "blobs"], "boundary": ["none", "periodic", "reflective", "both"],
-        "metric": ["ess", "vv0.3", "vv2"], "zero": [False, True], "d": [1, 2, 3],
+        "metric": ["ess", "vv0.3", "vv2"], "zero": [False, True], "d": [1, 2, 3, 6],
     }
     DEFAULTS = {"clustering": False, "boundary": "none", "metric": "ess", "zero": False, "mode": "vector", "kernel": "tpcn",
                 "resample": "mult", "d": 1}
